@@ -355,3 +355,59 @@ class VisitNodeGenerations(OrderSpec):
             for v in live:
                 if u != v and nx.has_path(c.dag, u, v) and u in pos and v in pos:
                     yield f"producer-in-earlier-generation[{u}->{v}]", pos[u] < pos[v]
+
+
+@register
+class PlanTotals(OrderSpec):
+    """FinalizedPlan.__init__/_calculate_stats: the plan's advertised totals are the sums over its operations —
+    num_tasks == sum of the operations' num_tasks (C13: the plan's total is their sum), num_primitive_ops == number of
+    operations with a primitive op, max_projected_mem == the maximum of their projected memory, bytes/chunks written
+    == sums over the materialised non-input arrays; array roles partition the array nodes."""
+
+    target = f"{PLAN}:FinalizedPlan.__init__"
+    name = f"{PLAN}:FinalizedPlan[totals]"
+    props = ("C13", "C04")
+    bounded = ("DAG shapes enumerated",)
+
+    def configs(self, tier):
+        return [dict(shape=s) for s in ("single", "chain", "diamond", "independent", "fan-out", "repeated-edge")]
+
+    def setup(self, c):
+        dag, ops = build_dag(c, c.cfg["shape"], lazy=False)
+        for o in ops:
+            t = dag.nodes[f"array-{o}"]["target"]
+            t.__dict__["nbytes"] = c.int(f"{o}_nbytes", lo=0)
+            t.__dict__["nchunks"] = c.int(f"{o}_nchunks", lo=1)
+        c.dag, c.ops = dag, ops
+        FP = c.interp.world.lookup(f"{PLAN}:FinalizedPlan")
+        c.FP = FP
+        want = (f"array-{ops[-1]}",)
+        c.want = want
+        return (dag, want, True), {}
+
+    def call(self, c, args, kwargs):
+        return c.interp.call(c.FP, list(args), dict(kwargs))
+
+    def ensures(self, c, a, k, fp):
+        dag, ops = c.dag, c.ops
+        pos = [dag.nodes[f"op-{o}"]["primitive_op"] for o in ops]
+        tot = 0
+        for p in pos:
+            tot = tot + p.num_tasks
+        yield "num_tasks-is-the-sum-over-operations", fp.num_tasks == tot
+        yield "num_primitive_ops", fp.num_primitive_ops == len(pos)
+        mx = 0
+        for p in pos:
+            mx = c.max(mx, p.projected_mem)
+        yield "max_projected_mem-is-the-maximum", fp.max_projected_mem == mx
+        wb = 0
+        wc = 0
+        for o in ops:
+            t = dag.nodes[f"array-{o}"]["target"]
+            wb = wb + t.nbytes
+            wc = wc + t.nchunks
+        yield "bytes-written-is-the-sum-over-materialised-arrays", fp.total_nbytes_written == wb
+        yield "chunks-written-is-the-sum-over-materialised-arrays", fp._total_nchunks_written == wc
+        arrays = sorted(n for n, d in dag.nodes(data=True) if d.get("type") == "array")
+        roles = sorted(list(fp.input_array_names) + list(fp.intermediate_array_names) + [n for n in c.want])
+        yield "array-roles-partition-the-arrays", roles == arrays
